@@ -89,25 +89,24 @@ def Spec.importBlock (t : Tree) (p : Spec) (b : Blk) : Spec × String :=
 /-- `fin b` for an accepted block that is the finalised block or descends from it
     (`apply_standard_changes` / `finalize_with_descendent_if`).
     Choice: the block-level finalisation always takes place (that is property C17's subject); when the fork
-    tree reports an unfinalised ancestor the authority set is left untouched.
+    tree reports an unfinalised ancestor the set id, the authorities and the standard changes are left
+    untouched.
     Choice: a pending forced change stays pending exactly while its announcing block is the finalised block
     or descends from it. -/
 def Spec.finalise (t : Tree) (p : Spec) (b : Blk) : Spec × String :=
   if !(p.known.contains b && anc t p.fin b) then (p, "e-fin")
   else
     let n := num t b
-    let p0 := { p with fin := b, known := p.known.filter (cmp t b) }
+    let p0 := { p with fin := b, known := p.known.filter (cmp t b),
+                       forced := p.forced.filter (fun f => anc t b f.blk) }
     match p.std.find? (fun r => decide (eff t r.ann ≤ n) && anc t r.ann.blk b) with
     | some r =>
       if r.kids.any (fun k => decide (num t k.ann.blk ≤ n) && anc t k.ann.blk b) then
         (p0, "ok+e-sched:unfin")
       else
-        let p1 := { p0 with std := r.kids.filter (fun k => cmp t b k.ann.blk),
-                            forced := p0.forced.filter (fun f => anc t b f.blk) }
-        (p1.enact r.ann.tag n, "ok")
+        ({ p0 with std := r.kids.filter (fun k => cmp t b k.ann.blk) }.enact r.ann.tag n, "ok")
     | none =>
-      ({ p0 with std := p0.std.filter (fun r => cmp t b r.ann.blk),
-                 forced := p0.forced.filter (fun f => anc t b f.blk) }, "ok")
+      ({ p0 with std := p0.std.filter (fun r => cmp t b r.ann.blk) }, "ok")
 
 def Spec.step (t : Tree) (p : Spec) : Op → Spec × String
   | .imp b => p.importBlock t b
